@@ -249,7 +249,8 @@ def _classify_parse(case, st, got, gnet, exact):
         if gnet in shadow and is_intlike(got) and as_coins.__floor__() <= got <= as_coins.__ceil__():
             return K_TERA
         return None
-    if whole and is_intlike(got) and abs(got - int(exact)) == 1 and exact >= 2 ** 50 and gnet in networks_for(code):
+    # one unit beyond the admissible result(s): n +- 1 for a whole amount, floor - 1 or ceil + 1 for a finer one
+    if is_intlike(got) and got in (exact.__floor__() - 1, exact.__ceil__() + 1) and exact >= 2 ** 50 and gnet in networks_for(code):
         return K_FLOAT_PARSE
     return None
 
